@@ -80,15 +80,21 @@ class Monitor(object):
         -------
 
         """
+        # Each actor's list is handed over exactly once: it is emptied as
+        # soon as it has been copied, so collating twice in a row (e.g. at a
+        # pause point) neither duplicates nor drops an event.
         if self.simulation.instrument.events:
             self.events = pd.concat([self.events,
                                     pd.DataFrame(self.simulation.instrument.events)])
+            self.simulation.instrument.events = []
 
         if self.simulation.scheduler.events:
             self.events = pd.concat([self.events,
                                     pd.DataFrame(self.simulation.scheduler.events)])
+            self.simulation.scheduler.events = []
         if self.simulation.buffer.events:
             self.events = pd.concat([self.events,
                                     pd.DataFrame(self.simulation.buffer.events)])
+            self.simulation.buffer.events = []
 
         self.events = self.events.infer_objects()
